@@ -257,7 +257,9 @@ def webanno_jobs(tier, seed):
              gen_job('webanno_p17', 'remove', 17, depth=0, style=(seed + 1) % 5, reads=['webanno'], MaxAnns=12, MaxRes=2),
              gen_job('webanno_p14', 'remove', 14, depth=0, style=(seed + 2) % 5, reads=['webanno'], MaxAnns=10, MaxRes=2, MaxData=4),
              gen_job('webanno_p15', 'tempish', 15, depth=0, style=(seed + 3) % 5, reads=['webanno'], MaxAnns=10, MaxRes=4, MaxData=6, MaxSets=4, MaxKeys=4),
-             gen_job('webanno_p16', 'remove', 16, depth=0, style=(seed + 4) % 5, reads=['webanno'], **big)]
+             gen_job('webanno_p16', 'remove', 16, depth=0, style=(seed + 4) % 5, reads=['webanno'], **big),
+             # data of the W3C Web Annotation vocabulary (created / creator / motivation are members of the annotation itself)
+             gen_job('webanno_p21', 'remove', 21, depth=1, style=(seed + 1) % 5, reads=['webanno'], MaxAnns=10, MaxRes=2, MaxData=8, MaxSets=3, MaxKeys=4)]
     s = seed % 5
     jobs += [gen_job('webanno_complex_p2', 'complex', 2, depth=2, style=s, reads=['webanno'], **big),
              gen_job('webanno_p6', 'remove', 6, depth=1, style=(s + 1) % 5, reads=['webanno'], **big),
